@@ -14,8 +14,8 @@ Plan gen_c24(sk::Rng& r, Tier) {
     Plan p;
     gen_rig_knobs(p, r);
     p.knobs["limit"] = r.pick<std::int64_t>({1, 2, 3, 5});
-    p.knobs["initial"] = r.pick<std::int64_t>({1, 2, 3});
-    p.knobs["max"] = r.pick<std::int64_t>({4, 10, 60});
+    p.knobs["initial"] = r.pick<std::int64_t>({1, 2, 3, 7});
+    p.knobs["max"] = r.pick<std::int64_t>({4, 5, 10, 60});  // also ceilings that are not initial x 2^k, and one below the initial back-off
     p.knobs["success"] = r.pick<std::int64_t>({2, 5, 15});
     p.knobs["parallel"] = r.pick<std::int64_t>({0, 1, 1, 2, 3});
     p.knobs["tick_ms"] = r.pick<std::int64_t>({400, 1000});
@@ -85,11 +85,23 @@ void exec_c24(const Plan& p, Ctx& ctx) {
 
     std::map<std::string, std::size_t> announces_since_pending;  // chunk key -> announces delivered while its fetch was already pending
     struct PF { std::string peer; std::size_t attempts; bool in_flight; std::int64_t next_attempt, last_dispatch, manifest_expires; bool never; };
+    // When was a fetch first seen with its current attempt count? The failed dispatch that produced the count (and from whose
+    // instant the back-off runs) happened between `last_dispatch` and that observation; observing right after every tick keeps
+    // the interval as short as the dispatch itself for every retry (retries are dispatched by ticks).
+    struct Seen { std::size_t attempts = 0; std::int64_t at = 0; };
+    std::map<std::string, Seen> first_seen;
+    auto note_attempts = [&](en::Node& n) {
+        std::unique_lock<std::recursive_mutex> lock(n.scheduler_mutex_);
+        for (auto& [key, st] : n.pending_chunk_fetches_) { auto& sn = first_seen[key]; if (sn.attempts != st.attempts || sn.at == 0) { sn.attempts = st.attempts; sn.at = sk::now_ns(); } }
+        for (auto it = first_seen.begin(); it != first_seen.end();) it = n.pending_chunk_fetches_.count(it->first) ? std::next(it) : first_seen.erase(it);
+    };
+    rig.node.after_tick = note_attempts;
     auto check = [&](const char* when) {
         std::map<std::string, PF> pending;
         std::map<std::string, std::size_t> counters;
         std::set<std::string> held;
         rig.node.run([&](en::Node& n) {
+            note_attempts(n);
             std::unique_lock<std::recursive_mutex> lock(n.scheduler_mutex_);
             for (auto& [key, st] : n.pending_chunk_fetches_) {
                 PF f;
@@ -124,9 +136,13 @@ void exec_c24(const Plan& p, Ctx& ctx) {
                 if (backoff < 1) backoff = 1;
                 const std::int64_t diff = f.next_attempt - f.last_dispatch;
                 ctx.probe("backoff_observed");
-                if (f.attempts >= 2) ctx.boundary("backoff_after_repeated_failure");
-                if (diff < backoff * kSec || diff > backoff * kSec + 8 * kSec)
-                    ctx.violate("C24.backoff", fmt("after failed attempt %zu the next attempt is scheduled %.3f s after the dispatch; expected back-off %lld s (initial %lld, max %lld) (%s)", f.attempts, diff / 1e9, (long long)backoff, (long long)initial, (long long)maxb, when));
+                // the back-off runs from the failure, which lies between the dispatch and the first observation of this attempt count
+                std::int64_t slack_max = 8 * kSec;
+                if (auto sn = first_seen.find(key); sn != first_seen.end() && sn->second.attempts == f.attempts && sn->second.at >= f.last_dispatch)
+                    slack_max = std::min<std::int64_t>(slack_max, sn->second.at - f.last_dispatch + 5 * kMs);
+                if (slack_max < 100 * kMs) ctx.probe("backoff_judged_within_100ms");
+                if (diff < backoff * kSec || diff > backoff * kSec + slack_max)
+                    ctx.violate("C24.backoff", fmt("after failed attempt %zu the next attempt is scheduled %.3f s after the dispatch; expected back-off %lld s (+ at most %.3f s for the dispatch itself; initial %lld, max %lld) (%s)", f.attempts, diff / 1e9, (long long)backoff, slack_max / 1e9, (long long)initial, (long long)maxb, when));
             }
             // every accepted announce for the chunk restarts the fetch and is allowed one more attempt
             const std::size_t extra = announces_since_pending.count(key) ? announces_since_pending[key] : 0;
